@@ -67,6 +67,12 @@ theorem tie_pixFillClampY (y h : BitVec 64) :
   simp only [VesaFb.clampOrigin, pixFillYZero, pixFillYBeyond, decide_eq_true_eq, BitVec.toNat_eq, ge_iff_le,
     BitVec.le_def, BitVec.toNat_ofNat]
 
+/-- `Fill` returns at once on an empty grid (and, for the pixel console, without a font) -/
+theorem tie_fillEmptyGrid (w h font nil : BitVec 64) :
+    textFillEmptyGrid w h = decide (w.toNat = 0 ∨ h.toNat = 0) ∧
+    pixFillEmptyGrid font nil w h = (decide (font = nil) || decide (w.toNat = 0 ∨ h.toNat = 0)) := by
+  simp [textFillEmptyGrid, pixFillEmptyGrid, BitVec.toNat_eq, Bool.or_assoc]
+
 /-- the clipped extent `width - x + 1` -/
 theorem tie_textFillClipW (w x : BitVec 64) (hw : w.toNat < 4294967296) (hx : x.toNat < 4294967296) :
     lo (textFillClipW w x) = add32 (sub32 w.toNat x.toNat) 1 := by
